@@ -340,6 +340,25 @@ func (x *Exec) applyContract(p *Path, ct *Contract, vars map[string]SV, results 
 		env = env.with(lt.Name, sv)
 	}
 	tag := "call " + site
+	// inside a goroutine body, a call that may write shared state must hold the mutex
+	if !ct.Flags["pure"] && ct.Kind != "extern" {
+		for _, fr := range p.frames {
+			if fr.spawned {
+				goal := "false"
+				var ls []string
+				for _, m := range p.mutexes {
+					ls = append(ls, fmt.Sprintf("(select (CBool %s) %s)", p.H, m))
+				}
+				if len(ls) == 1 {
+					goal = ls[0]
+				} else if len(ls) > 1 {
+					goal = "(or " + strings.Join(ls, " ") + ")"
+				}
+				x.oblig(p, tag+"/async/mutex-held", goal, x.cur.ct.Props, x.pos(in))
+				break
+			}
+		}
+	}
 	// known closures passed to a callee that calls back: functional summary of the closure for cbret
 	type cloInfo struct {
 		cc   *Contract
